@@ -12,7 +12,7 @@ let abi_of_string = function
 
 let handle (toks : string list) : (string * string * string) option =
   let toks = (match toks with
-      | op :: rest when String.length op > 1 && op.[0] = 'w' -> String.sub op 1 (String.length op - 1) :: rest
+      | op :: rest when String.length op > 1 && (op.[0] = 'w' || op.[0] = 'x') -> String.sub op 1 (String.length op - 1) :: rest
       | _ -> toks) in
   match toks with
   | ["conv"; t; f; v] ->
